@@ -203,6 +203,8 @@ class Interp:
                 for e in t.elts:
                     self.assign(e, OPQ)
             else:
+                if not isinstance(v, (Row, list, tuple)):
+                    raise NotComparisonOnly(f'unpacking of a value that is not a row ({type(v).__name__})')
                 vals = v.vals if isinstance(v, Row) else list(v)
                 if len(vals) != len(t.elts):
                     for e in t.elts:
